@@ -356,6 +356,43 @@ def foreign_case(rec, kid, sub, usage, kind, cipher, halg, mixed=False, longpw=F
         rec.finding('foreign', 're-export-differs/' + tag, case, 'a protected key that was only unlocked must export unchanged')
 
 
+def plain_sub_case(rec, kid, sub):
+    """a protected primary key with an UNprotected subkey (usage octet 0; legal RFC 4880, e.g. a subkey added by a tool that does not protect):
+    unlocking must work, the scope must end with the primary locked again, and the subkey that never was protected must not be damaged"""
+    import pgpy
+    spec = rs2k.Spec('iterated', 8, b'\x11\x22\x33\x44\x55\x66\x77\x88', 3)
+    pw = 'foreign pässphrase'
+    pubblob = keypool.ref_cert(kid, subkeys=((sub, 0x0C),), secret=False)
+    pk = wire.split_packets(pubblob)
+    prim = keypool.secret_body(kid, protect={'usage': 254, 'sym': 9, 'spec': spec, 'iv': bytes(range(16)), 'passphrase': pw})
+    blob = wire.build_packet(5, prim) + pk[1].raw + pk[2].raw + wire.build_packet(7, keypool.secret_body(sub)) + pk[4].raw
+    case = {'kind': 'plain-sub', 'kid': kid, 'sub': sub}
+    rec.case(('plain-sub', kid, sub), True, ['foreign/protected-primary-with-unprotected-subkey', 'alg/' + kid.split('-')[0]], {'key': kid, 'subkey': sub, 'form': 'protected primary, unprotected subkey'})
+    try:
+        key = pgpy.PGPKey.from_blob(blob)[0]
+    except Exception as e:   # noqa
+        rec.finding('foreign', 'load-exception/plain-sub', case, repr(e))
+        return
+    try:
+        with key.unlock(pw):
+            for p in works_unlocked(key, pubblob):
+                rec.finding('foreign', 'does-not-work-unlocked/plain-sub', case, p)
+    except Exception as e:   # noqa
+        rec.finding('foreign', 'right-passphrase-rejected/plain-sub', case, repr(e))
+    if walk_for_secrets(key, [kid]):
+        rec.finding('foreign', 'secret-integer-in-memory-after-scope/plain-sub', case, '')
+    try:
+        if bytes(key) != blob:
+            rec.finding('foreign', 're-export-differs/plain-sub', case, 'the key was only unlocked: it must export unchanged (the unprotected subkey included)')
+    except Exception as e:   # noqa
+        rec.finding('foreign', 'export-exception/plain-sub', case, repr(e))
+    try:
+        with key.unlock(pw + '?'):
+            rec.finding('foreign', 'wrong-passphrase-accepted/plain-sub', case, '')
+    except Exception:   # noqa
+        pass
+
+
 def gnu_dummy_case(rec, kid):
     import pgpy
     a, c_, params, secret, curve, kdf = keypool.numbers(kid)
@@ -405,6 +442,7 @@ def w_foreign(arg):
             foreign_case(rec, kid, SUBS[j], 254, 'iterated', 9, 8, mixed=True)
             foreign_case(rec, kid, SUBS[j], [254, 255][j % 2], 'iterated', [9, 7, 3, 13][j], [8, 2, 10, 1][j], longpw=True)
             gnu_dummy_case(rec, kid)
+            plain_sub_case(rec, kid, SUBS[j])
     return rec
 
 
@@ -426,6 +464,8 @@ def replay(case):
         foreign_case(rec, case['kid'], case['sub'], case['usage'], case['spec'], case['cipher'], case['hash'], case.get('mixed', False), case.get('longpw', False))
     elif case.get('kind') == 'gnu-dummy':
         gnu_dummy_case(rec, case['kid'])
+    elif case.get('kind') == 'plain-sub':
+        plain_sub_case(rec, case['kid'], case['sub'])
     else:
         f, shape = run_history(case)
         return f
